@@ -9,14 +9,15 @@ Local Open Scope Z_scope.
 (* the same, in words: the Field exists, AddTo does not panic, and the calls the encoder
    receives are, up to the class of the method, exactly the specified delivery of v *)
 Theorem roundtrip_thm : forall c, In c (t_ctors T) -> is_dict c = false ->
-  forall stack k v, in_typeb (c_param c) v = true ->
-  exists f cs, construct T ctor_fuel stack (c_name c) k v = Some f /\
-               addto T (addto_fuel v) f = Some cs /\
-               expected stack (c_name c) (c_param c) k v = Some (norm_calls cs).
+  forall la lb stack k v, in_typeb (c_param c) v = true ->
+  exists f cs, construct T ctor_fuel la stack (c_name c) k v = Some f /\
+               addto T (addto_fuel v) lb f = Some cs /\
+               expected lb stack (c_name c) (c_param c) k v = Some (norm_calls cs).
 Proof.
-  intros c I D stack k v Hv. pose proof (ctor_ok_in c I D stack k v Hv) as H. unfold ctor_ok in H.
-  revert H. destruct (construct T ctor_fuel stack (c_name c) k v) as [f|] eqn:Ec; [|contradiction].
-  destruct (addto T (addto_fuel v) f) as [cs|] eqn:Ea; [|contradiction].
+  intros c I D la lb stack k v Hv. pose proof (ctor_ok_in c I D la la lb stack k v Hv) as H. unfold ctor_ok in H.
+  revert H. destruct (construct T ctor_fuel la stack (c_name c) k v) as [f|] eqn:Ec; [|contradiction].
+  intros [_ H]. revert H.
+  destruct (addto T (addto_fuel v) lb f) as [cs|] eqn:Ea; [|contradiction].
   intros H. exists f, cs. split; [reflexivity|]. split; [exact Ea|]. apply H.
 Qed.
 
@@ -206,18 +207,18 @@ Definition dict_field (k : bytes) (v : val) : field :=
   {| f_ty := 2; f_key := k; f_int := 0; f_str := []; f_ifc := VWrap ($"dictObject") v |}.
 
 Lemma dict_construct nm : nm = $"Dict" \/ nm = $"dictField" ->
-  forall stack k v, construct T ctor_fuel stack nm k v = Some (dict_field k v).
-Proof. intros [-> | ->] stack k v; reflexivity. Qed.
+  forall la stack k v, construct T ctor_fuel la stack nm k v = Some (dict_field k v).
+Proof. intros [-> | ->] la stack k v; reflexivity. Qed.
 
 (* the object a Dict field adds holds, in order, what each member adds; it panics exactly when
    a member does *)
-Lemma dict_addto k a l :
-  option_map norm_calls (addto T (addto_fuel (VSlice a l)) (dict_field k (VSlice a l))) = exp_dict k (VSlice a l).
+Lemma dict_addto lb k a l :
+  option_map norm_calls (addto T (addto_fuel (VSlice a l)) lb (dict_field k (VSlice a l))) = exp_dict lb k (VSlice a l).
 Proof.
   unfold addto_fuel, exp_dict. remember (S (val_depth (VSlice a l))) as n eqn:En. clear En.
-  assert (E : addto T (S n) (dict_field k (VSlice a l)) =
+  assert (E : addto T (S n) lb (dict_field k (VSlice a l)) =
               option_map (fun d => [(($"AddObject"), k, d)])
-                (option_map VCalls (oconcati (fun _ x => match field_of_val x with Some f => addto T n f | None => None end) 0 l))).
+                (option_map VCalls (oconcati (fun _ x => match field_of_val x with Some f => addto T n lb f | None => None end) 0 l))).
   { reflexivity. }
   rewrite E. destruct (oconcati _ 0 l); reflexivity.
 Qed.
@@ -234,6 +235,26 @@ Proof.
   - destruct (c_param c); try discriminate. destruct g; try discriminate. reflexivity.
 Qed.
 
+(* ==================== ambient state ==================== *)
+(* A constructor reads nothing from the process: the Field it returns is the same whatever
+   time.Local points to while it runs (in particular it never records "the value is in the local
+   zone" in place of the zone itself) *)
+Theorem construct_amb : forall c, In c (t_ctors T) ->
+  forall la la' stack k v, in_typeb (c_param c) v = true ->
+  construct T ctor_fuel la stack (c_name c) k v = construct T ctor_fuel la' stack (c_name c) k v.
+Proof.
+  intros c I la la' stack k v Hv. destruct (is_dict c) eqn:D.
+  - destruct (dict_names c I D) as (Hn & _). rewrite !(dict_construct _ Hn). reflexivity.
+  - pose proof (ctor_ok_in c I D la la' 0 stack k v Hv) as H. unfold ctor_ok in H.
+    destruct (construct T ctor_fuel la stack (c_name c) k v) as [f|]; [|contradiction].
+    destruct H as [H _]. symmetry. exact H.
+Qed.
+
+(* ... and the specification of every constructor but Dict does not look at the ambient state *)
+Lemma expected_amb_free c : is_dict c = false ->
+  forall lb lb' stack k v, expected lb stack (c_name c) (c_param c) k v = expected lb' stack (c_name c) (c_param c) k v.
+Proof. unfold is_dict, expected. intros D lb lb' stack k v. lazy zeta. rewrite D. reflexivity. Qed.
+
 (* ==================== ObjectValues: the caller's own elements, by address ==================== *)
 (* what an array encoder is handed for the slice (identity a, elements l) from position i on: for
    each element, in order, the address of THAT element of THAT slice *)
@@ -243,8 +264,8 @@ Fixpoint refs_from (m : name) (a i : Z) (l : list val) : list call :=
   | x :: r => (m, [], VRef a i x) :: refs_from m a (Z.succ i) r
   end.
 
-Lemma refs_loop A m a : forall l i,
-  oconcati (loop1 A (LAppendErr m EElemAddr) a) i l = Some (refs_from m a i l).
+Lemma refs_loop loc A m a : forall l i,
+  oconcati (loop1 loc A (LAppendErr m EElemAddr) a) i l = Some (refs_from m a i l).
 Proof.
   induction l as [|x l IH]; intros i; [reflexivity|].
   cbn [oconcati refs_from]. rewrite IH. reflexivity.
@@ -253,11 +274,11 @@ Qed.
 (* for EVERY slice -- any identity, any length, any elements, aliasing windows included -- the Field
    is built, AddTo does not panic, and the array encoder receives, in order, one AppendObject per
    element whose argument is the address of that very element of the caller's slice *)
-Theorem object_values_thm : forall stack k a l,
-  exists f, construct T ctor_fuel stack ($"ObjectValues") k (VSlice a l) = Some f /\
-            addto T (addto_fuel (VSlice a l)) f = Some [(($"AddArray"), k, VCalls (refs_from ($"AppendObject") a 0 l))].
+Theorem object_values_thm : forall la lb stack k a l,
+  exists f, construct T ctor_fuel la stack ($"ObjectValues") k (VSlice a l) = Some f /\
+            addto T (addto_fuel (VSlice a l)) lb f = Some [(($"AddArray"), k, VCalls (refs_from ($"AppendObject") a 0 l))].
 Proof.
-  intros stack k a l. eexists. split; [reflexivity|].
+  intros la lb stack k a l. eexists. split; [reflexivity|].
   unfold addto_fuel. remember (S (val_depth (VSlice a l))) as n eqn:En. clear En.
   cbn. unfold run_loop. rewrite refs_loop. reflexivity.
 Qed.
@@ -267,48 +288,51 @@ Lemma copy_is_not_element a i x y : VPtr y <> VRef a i x.
 Proof. discriminate. Qed.
 
 (* ==================== Equals on the Fields the constructors build ==================== *)
-Definition built (stack : bytes) (c : ctor) (k : bytes) (v : val) (f : field) : Prop :=
-  In c (t_ctors T) /\ in_typeb (c_param c) v = true /\ construct T ctor_fuel stack (c_name c) k v = Some f.
+(* [la]: what time.Local pointed to while the Field was built *)
+Definition built (la : Z) (stack : bytes) (c : ctor) (k : bytes) (v : val) (f : field) : Prop :=
+  In c (t_ctors T) /\ in_typeb (c_param c) v = true /\ construct T ctor_fuel la stack (c_name c) k v = Some f.
 
-Lemma built_facts stack c k v f : built stack c k v f ->
+Lemma built_facts la stack c k v f : built la stack c k v f ->
   fwfb f = true /\ (payload_self (c_param c) v = true -> fself f = true).
 Proof.
   intros (I & Hv & Hc). destruct (is_dict c) eqn:D.
   - destruct (dict_names c I D) as (Hn & Hp). rewrite (dict_construct _ Hn) in Hc. injection Hc as <-.
     split; [reflexivity|]. rewrite Hp in *. destruct v; try discriminate Hv. cbn in Hv.
     apply andb_true_iff in Hv as [H1 _]. intros Hs. cbn in Hs. cbn. apply (slice_self _ _ _ H1 Hs).
-  - pose proof (ctor_ok_in c I D stack k v Hv) as H. unfold ctor_ok in H. rewrite Hc in H.
-    destruct (addto T (addto_fuel v) f); [|contradiction]. tauto.
+  - pose proof (ctor_ok_in c I D la la 0 stack k v Hv) as H. unfold ctor_ok in H. rewrite Hc in H.
+    destruct H as [_ H]. destruct (addto T (addto_fuel v) 0 f); [|contradiction]. tauto.
 Qed.
 
-Theorem equals_total_thm stack c1 k1 v1 f c2 k2 v2 g :
-  built stack c1 k1 v1 f -> built stack c2 k2 v2 g -> equals T f g <> None.
+Theorem equals_total_thm la1 la2 stack c1 k1 v1 f c2 k2 v2 g :
+  built la1 stack c1 k1 v1 f -> built la2 stack c2 k2 v2 g -> equals T f g <> None.
 Proof.
-  intros B1 B2. destruct (built_facts _ _ _ _ _ B1) as [W1 _]. destruct (built_facts _ _ _ _ _ B2) as [W2 _].
+  intros B1 B2. destruct (built_facts _ _ _ _ _ _ B1) as [W1 _]. destruct (built_facts _ _ _ _ _ _ B2) as [W2 _].
   destruct (equals_total_sym f g W1 W2) as (r & E & _). rewrite E. discriminate.
 Qed.
 
-Theorem equals_sym_thm stack c1 k1 v1 f c2 k2 v2 g :
-  built stack c1 k1 v1 f -> built stack c2 k2 v2 g -> equals T f g = equals T g f.
+Theorem equals_sym_thm la1 la2 stack c1 k1 v1 f c2 k2 v2 g :
+  built la1 stack c1 k1 v1 f -> built la2 stack c2 k2 v2 g -> equals T f g = equals T g f.
 Proof.
-  intros B1 B2. destruct (built_facts _ _ _ _ _ B1) as [W1 _]. destruct (built_facts _ _ _ _ _ B2) as [W2 _].
+  intros B1 B2. destruct (built_facts _ _ _ _ _ _ B1) as [W1 _]. destruct (built_facts _ _ _ _ _ _ B2) as [W2 _].
   destruct (equals_total_sym f g W1 W2) as (r & E1 & E2). rewrite E1, E2. reflexivity.
 Qed.
 
-Theorem equals_refl_thm stack c k v f :
-  built stack c k v f -> payload_self (c_param c) v = true -> equals T f f = Some true.
+Theorem equals_refl_thm la stack c k v f :
+  built la stack c k v f -> payload_self (c_param c) v = true -> equals T f f = Some true.
 Proof.
-  intros B S. destruct (built_facts _ _ _ _ _ B) as [W Hs]. apply equals_refl; [exact W|exact (Hs S)].
+  intros B S. destruct (built_facts _ _ _ _ _ _ B) as [W Hs]. apply equals_refl; [exact W|exact (Hs S)].
 Qed.
 
-(* constructors are functions of (key, value); Fields built from the same input compare equal *)
-Theorem equal_inputs_thm stack c k v f g :
-  built stack c k v f -> built stack c k v g ->
+(* constructors are functions of (key, value) ALONE -- not of the ambient state: Fields built from
+   the same input compare equal, also when time.Local was re-pointed between the two calls *)
+Theorem equal_inputs_thm la la' stack c k v f g :
+  built la stack c k v f -> built la' stack c k v g ->
   f = g /\ (payload_self (c_param c) v = true -> equals T f g = Some true).
 Proof.
   intros B1 B2. assert (E : f = g).
-  { destruct B1 as (_ & _ & E1). destruct B2 as (_ & _ & E2). rewrite E1 in E2. injection E2 as ->. reflexivity. }
-  split; [exact E|]. subst g. apply (equals_refl_thm _ _ _ _ _ B1).
+  { destruct B1 as (I & Hv & E1). destruct B2 as (_ & _ & E2).
+    rewrite (construct_amb c I la la' stack k v Hv) in E1. rewrite E1 in E2. injection E2 as ->. reflexivity. }
+  split; [exact E|]. subst g. apply (equals_refl_thm _ _ _ _ _ _ B1).
 Qed.
 
 (* Binary/ByteString: equal contents compare equal whether the slice is nil or empty *)
@@ -331,11 +355,11 @@ Definition T_orig : tables :=
 (* the full statement, about the original table *)
 Definition equals_total_orig : Prop :=
   forall c k v f, In c (t_ctors T_orig) -> in_typeb (c_param c) v = true ->
-    construct T_orig ctor_fuel [] (c_name c) k v = Some f -> equals T_orig f f <> None.
+    construct T_orig ctor_fuel loc_local [] (c_name c) k v = Some f -> equals T_orig f f <> None.
 Definition equals_refl_orig : Prop :=
   forall c k v f, In c (t_ctors T_orig) -> in_typeb (c_param c) v = true ->
     payload_self (c_param c) v = true ->
-    construct T_orig ctor_fuel [] (c_name c) k v = Some f -> equals T_orig f f = Some true.
+    construct T_orig ctor_fuel loc_local [] (c_name c) k v = Some f -> equals T_orig f f = Some true.
 
 (* a Stringer whose dynamic type is a slice: not comparable *)
 Definition slice_stringer : val :=
@@ -386,11 +410,12 @@ Qed.
 Definition min_nano : Z := -9223372036854775808.
 Definition max_nano : Z := 9223372036854775807.
 
-Theorem time_thm stack k t :
-  match construct T ctor_fuel stack ($"Time") k (VTime t) with
+Theorem time_thm la lb stack k t :
+  match construct T ctor_fuel la stack ($"Time") k (VTime t) with
   | Some f =>
-      (* the encoder receives the same instant in the same location *)
-      addto T 2 f = Some [(($"AddTime"), k, VTime t)] /\
+      (* the encoder receives the same instant in the same location, whatever time.Local points to
+         when the Field is built ([la]) and when it is encoded ([lb]) *)
+      addto T 2 lb f = Some [(($"AddTime"), k, VTime t)] /\
       (* representable as int64 nanoseconds (boundaries included): UnixNano + Location *)
       (min_nano <= tinst t <= max_nano ->
          f = {| f_ty := 16; f_key := k; f_int := tinst t; f_str := []; f_ifc := VLoc (tloc t) |}) /\
@@ -594,14 +619,14 @@ Proof.
   - intros H. destruct (IH H) as [I N]. split; [right; exact I|exact N].
 Qed.
 
-Lemma expected_dict stack nm t k v : nm = $"Dict" \/ nm = $"dictField" -> expected stack nm t k v = exp_dict k v.
+Lemma expected_dict lb stack nm t k v : nm = $"Dict" \/ nm = $"dictField" -> expected lb stack nm t k v = exp_dict lb k v.
 Proof. intros [-> | ->]; reflexivity. Qed.
 
 (* a well-formed application: the Field is built, AddTo does not panic and delivers as specified *)
-Lemma app_ok stack c k v : wf_app stack c k v = true ->
-  exists f cs, construct T ctor_fuel stack c k v = Some f /\
-               addto T (addto_fuel v) f = Some cs /\
-               expected stack c (param_of c) k v = Some (norm_calls cs) /\
+Lemma app_ok lb stack c k v : wf_app lb stack c k v = true ->
+  exists f cs, (forall la', construct T ctor_fuel la' stack c k v = Some f) /\
+               addto T (addto_fuel v) lb f = Some cs /\
+               expected lb stack c (param_of c) k v = Some (norm_calls cs) /\
                fwfb f = true /\ (payload_self (param_of c) v = true -> fself f = true).
 Proof.
   unfold wf_app, known, param_of. intros H. apply andb_true_iff in H as [H He]. apply andb_true_iff in H as [Hk Hv].
@@ -609,18 +634,20 @@ Proof.
   destruct (find_ctor_some _ _ _ F) as [I N]. subst c.
   destruct (is_dict ct) eqn:D.
   - destruct (dict_names ct I D) as (Hn & Hp). rewrite Hp in *.
-    destruct v; try discriminate Hv. rewrite (dict_construct _ Hn).
-    rewrite (expected_dict _ _ _ _ _ Hn) in *. pose proof (dict_addto k addr l) as A.
-    destruct (addto T (addto_fuel (VSlice addr l)) (dict_field k (VSlice addr l))) as [cs|] eqn:Ea; cbn [option_map] in A.
+    destruct v; try discriminate Hv.
+    rewrite (expected_dict _ _ _ _ _ _ Hn) in *. pose proof (dict_addto lb k addr l) as A.
+    destruct (addto T (addto_fuel (VSlice addr l)) lb (dict_field k (VSlice addr l))) as [cs|] eqn:Ea; cbn [option_map] in A.
     + exists (dict_field k (VSlice addr l)), cs.
-      split; [reflexivity|]. split; [exact Ea|]. split; [symmetry; exact A|]. split; [reflexivity|].
+      split; [intros la'; apply (dict_construct _ Hn)|]. split; [exact Ea|]. split; [symmetry; exact A|]. split; [reflexivity|].
       cbn in Hv. apply andb_true_iff in Hv as [H1 _]. intros Hs. cbn in Hs. cbn. apply (slice_self _ _ _ H1 Hs).
     + rewrite <- A in He. discriminate He.
-  - pose proof (ctor_ok_in ct I D stack k v Hv) as H. unfold ctor_ok in H.
-    destruct (construct T ctor_fuel stack (c_name ct) k v) as [f|]; [|contradiction].
-    destruct (addto T (addto_fuel v) f) as [cs|] eqn:Ea; [|contradiction].
+  - pose proof (ctor_ok_in ct I D 0 0 lb stack k v Hv) as H. unfold ctor_ok in H.
+    destruct (construct T ctor_fuel 0 stack (c_name ct) k v) as [f|] eqn:Ec; [|contradiction].
+    destruct H as [_ H].
+    destruct (addto T (addto_fuel v) lb f) as [cs|] eqn:Ea; [|contradiction].
     destruct H as (H1 & H2 & H3).
-    exists f, cs. split; [reflexivity|]. split; [exact Ea|]. split; [exact H1|]. split; [exact H2|exact H3].
+    exists f, cs. split; [intros la'; rewrite <- Ec; apply (construct_amb ct I la' 0 stack k v Hv)|].
+    split; [exact Ea|]. split; [exact H1|]. split; [exact H2|exact H3].
 Qed.
 
 Lemma consistentb_sound ty impls : consistentb ty impls = true -> consistent ty (has impls).
@@ -637,20 +664,20 @@ Proof.
   intros i W. unfold wf in W. unfold spec, model.
   destruct (sx_z (sx_nth i 0)) as [|[p|p|]|p].
   - (* a constructor *)
-    apply andb_true_iff in W as [_ W]. destruct (app_ok _ _ _ _ W) as (f & cs & Ec & Ea & Ee & _ & _).
+    apply andb_true_iff in W as [_ W]. destruct (app_ok _ _ _ _ _ W) as (f & cs & Ec & Ea & Ee & _ & _).
     cbn zeta. unfold deliver. rewrite Ec, Ea. unfold sx_nth at 1. cbn [sx_l nth]. rewrite Ee. apply calls_ok_refl.
   - (* Equals (any other tag) *)
     apply andb_true_iff in W as [W1 W2]. unfold wf_triple in W1, W2.
     destruct (dec_triple (sx_nth i 1)) as [[c1 k1] v1] eqn:D1. destruct (dec_triple (sx_nth i 2)) as [[c2 k2] v2] eqn:D2.
     apply andb_true_iff in W1 as [W1 S1]. apply andb_true_iff in W1 as [_ W1].
     apply andb_true_iff in W2 as [W2 S2]. apply andb_true_iff in W2 as [_ W2].
-    destruct (app_ok _ _ _ _ W1) as (f & cs1 & Ec1 & _ & _ & F1 & Q1).
-    destruct (app_ok _ _ _ _ W2) as (g & cs2 & Ec2 & _ & _ & F2 & Q2).
+    destruct (app_ok _ _ _ _ _ W1) as (f & cs1 & Ec1 & _ & _ & F1 & Q1).
+    destruct (app_ok _ _ _ _ _ W2) as (g & cs2 & Ec2 & _ & _ & F2 & Q2).
     rewrite Ec1, Ec2. destruct (equals_total_sym f g F1 F2) as (r & E12 & E21).
     rewrite E12, E21, (equals_refl f F1 (Q1 S1)), (equals_refl g F2 (Q2 S2)).
     unfold sx_nth at 1 2 3 4. cbn [sx_l nth]. rewrite !ores_nz. cbn [sx_z sx_of_ores].
     destruct (sx_eqb (sx_nth i 1) (sx_nth i 2)) eqn:Es.
-    + apply sx_eqb_eq in Es. rewrite Es, D2 in D1. injection D1 as <- <- <-. rewrite Ec1 in Ec2. injection Ec2 as <-.
+    + apply sx_eqb_eq in Es. rewrite Es, D2 in D1. injection D1 as <- <- <-. pose proof (Ec1 0) as Ec10. pose proof (Ec2 0) as Ec20. rewrite Ec10 in Ec20. injection Ec20 as <-.
       rewrite (equals_refl f F1 (Q1 S1)) in E12. injection E12 as <-. reflexivity.
     + destruct r; reflexivity.
   - (* Equals *)
@@ -658,27 +685,28 @@ Proof.
     destruct (dec_triple (sx_nth i 1)) as [[c1 k1] v1] eqn:D1. destruct (dec_triple (sx_nth i 2)) as [[c2 k2] v2] eqn:D2.
     apply andb_true_iff in W1 as [W1 S1]. apply andb_true_iff in W1 as [_ W1].
     apply andb_true_iff in W2 as [W2 S2]. apply andb_true_iff in W2 as [_ W2].
-    destruct (app_ok _ _ _ _ W1) as (f & cs1 & Ec1 & _ & _ & F1 & Q1).
-    destruct (app_ok _ _ _ _ W2) as (g & cs2 & Ec2 & _ & _ & F2 & Q2).
+    destruct (app_ok _ _ _ _ _ W1) as (f & cs1 & Ec1 & _ & _ & F1 & Q1).
+    destruct (app_ok _ _ _ _ _ W2) as (g & cs2 & Ec2 & _ & _ & F2 & Q2).
     rewrite Ec1, Ec2. destruct (equals_total_sym f g F1 F2) as (r & E12 & E21).
     rewrite E12, E21, (equals_refl f F1 (Q1 S1)), (equals_refl g F2 (Q2 S2)).
     unfold sx_nth at 1 2 3 4. cbn [sx_l nth]. rewrite !ores_nz. cbn [sx_z sx_of_ores].
     destruct (sx_eqb (sx_nth i 1) (sx_nth i 2)) eqn:Es.
-    + apply sx_eqb_eq in Es. rewrite Es, D2 in D1. injection D1 as <- <- <-. rewrite Ec1 in Ec2. injection Ec2 as <-.
+    + apply sx_eqb_eq in Es. rewrite Es, D2 in D1. injection D1 as <- <- <-. pose proof (Ec1 0) as Ec10. pose proof (Ec2 0) as Ec20. rewrite Ec10 in Ec20. injection Ec20 as <-.
       rewrite (equals_refl f F1 (Q1 S1)) in E12. injection E12 as <-. reflexivity.
     + destruct r; reflexivity.
   - (* zap.Any *)
     cbn zeta in *.
     set (ty := gty_of_sx (sx_nth i 1)) in *. set (impls := map (fun s => iface_of_Z (sx_z s)) (sx_l (sx_nth i 2))) in *.
     set (k := sx_b (sx_nth i 3)) in *. set (v := val_of_sx (sx_nth i 4)) in *. set (tc := ss (sx_b (sx_nth i 5))) in *.
+    set (la := amb_a (sx_nth i 6)) in *. set (lb := amb_b (sx_nth i 6)) in *.
     apply andb_true_iff in W as [W Wt]. apply andb_true_iff in W as [W Ww]. apply andb_true_iff in W as [_ Wc].
     rewrite (any_thm_list ty impls (consistentb_sound _ _ Wc)).
-    destruct (app_ok _ _ _ _ Ww) as (f & cs & Ec & Ea & Ee & F1 & Q1).
-    destruct (app_ok _ _ _ _ Wt) as (g & cs' & Ec' & _ & _ & F2 & Q2).
+    destruct (app_ok _ _ _ _ _ Ww) as (f & cs & Ec & Ea & Ee & F1 & Q1).
+    destruct (app_ok _ _ _ _ _ Wt) as (g & cs' & Ec' & _ & _ & F2 & Q2).
     unfold deliver. rewrite Ec, Ea, Ec'. unfold sx_nth at 1 2 3 4. cbn [sx_l nth].
     rewrite Wc, Ee, calls_ok_refl. cbn [andb].
     destruct (bytes_eqb (spec_any ty impls) tc) eqn:Et; [|reflexivity].
-    apply bytes_eqb_eq in Et. rewrite Et in Ec. rewrite Ec in Ec'. injection Ec' as <-.
+    apply bytes_eqb_eq in Et. pose proof (Ec 0) as Ec0. pose proof (Ec' 0) as Ec0'. rewrite Et in Ec0. rewrite Ec0 in Ec0'. injection Ec0' as <-.
     rewrite sx_eqb_refl. cbn [andb].
     destruct (payload_self (param_of tc) v) eqn:Ps; [|reflexivity].
     rewrite (equals_refl f F2 (Q2 eq_refl)). reflexivity.
@@ -687,13 +715,13 @@ Proof.
     destruct (dec_triple (sx_nth i 1)) as [[c1 k1] v1] eqn:D1. destruct (dec_triple (sx_nth i 2)) as [[c2 k2] v2] eqn:D2.
     apply andb_true_iff in W1 as [W1 S1]. apply andb_true_iff in W1 as [_ W1].
     apply andb_true_iff in W2 as [W2 S2]. apply andb_true_iff in W2 as [_ W2].
-    destruct (app_ok _ _ _ _ W1) as (f & cs1 & Ec1 & _ & _ & F1 & Q1).
-    destruct (app_ok _ _ _ _ W2) as (g & cs2 & Ec2 & _ & _ & F2 & Q2).
+    destruct (app_ok _ _ _ _ _ W1) as (f & cs1 & Ec1 & _ & _ & F1 & Q1).
+    destruct (app_ok _ _ _ _ _ W2) as (g & cs2 & Ec2 & _ & _ & F2 & Q2).
     rewrite Ec1, Ec2. destruct (equals_total_sym f g F1 F2) as (r & E12 & E21).
     rewrite E12, E21, (equals_refl f F1 (Q1 S1)), (equals_refl g F2 (Q2 S2)).
     unfold sx_nth at 1 2 3 4. cbn [sx_l nth]. rewrite !ores_nz. cbn [sx_z sx_of_ores].
     destruct (sx_eqb (sx_nth i 1) (sx_nth i 2)) eqn:Es.
-    + apply sx_eqb_eq in Es. rewrite Es, D2 in D1. injection D1 as <- <- <-. rewrite Ec1 in Ec2. injection Ec2 as <-.
+    + apply sx_eqb_eq in Es. rewrite Es, D2 in D1. injection D1 as <- <- <-. pose proof (Ec1 0) as Ec10. pose proof (Ec2 0) as Ec20. rewrite Ec10 in Ec20. injection Ec20 as <-.
       rewrite (equals_refl f F1 (Q1 S1)) in E12. injection E12 as <-. reflexivity.
     + destruct r; reflexivity.
 Qed.
@@ -774,11 +802,11 @@ Theorem roundtrip_ok_sound : roundtrip_ok = true ->
   forall c n ft ie m ue, In c (t_ctors T) ->
     c_param c = TNum n -> c_body c = BLit ft KKey (Some ie) None None ->
     assoc ft (t_arms T) = Some (ACall m (Some ue)) ->
-    forall stack z, in_num n z ->
-    exists iz, eval (env0 (VI z) stack) ie = Some (VI iz) /\ in_numb NInt64 iz = true /\
-               forall k s x, eval (fenv {| f_ty := 0; f_key := k; f_int := iz; f_str := s; f_ifc := x |} VNil) ue = Some (VI z).
+    forall la lb stack z, in_num n z ->
+    exists iz, eval (env0 la (VI z) stack) ie = Some (VI iz) /\ in_numb NInt64 iz = true /\
+               forall k s x, eval (fenv lb {| f_ty := 0; f_key := k; f_int := iz; f_str := s; f_ifc := x |} VNil) ue = Some (VI z).
 Proof.
-  intros R c n ft ie m ue I Hp Hb Ha stack z Hz. unfold roundtrip_ok in R.
+  intros R c n ft ie m ue I Hp Hb Ha la lb stack z Hz. unfold roundtrip_ok in R.
   pose proof (forallb_In _ _ _ R I) as H. unfold int_ctor_ok in H. rewrite Hp, Hb, Ha in H.
   destruct (chain_of EVar ie) as [c1|] eqn:C1; [|discriminate H].
   destruct (chain_of EInteger ue) as [c2|] eqn:C2; [|discriminate H].
@@ -787,7 +815,7 @@ Proof.
   - apply (chain_of_eval EVar ie c1 _ z (or_introl eq_refl) C1). reflexivity.
   - apply (lands64_sound n); assumption.
   - intros k s x.
-    rewrite (chain_of_eval EInteger ue c2 (fenv {| f_ty := 0; f_key := k; f_int := run_chain c1 z; f_str := s; f_ifc := x |} VNil)
+    rewrite (chain_of_eval EInteger ue c2 (fenv lb {| f_ty := 0; f_key := k; f_int := run_chain c1 z; f_str := s; f_ifc := x |} VNil)
                (run_chain c1 z) (or_intror eq_refl) C2 eq_refl).
     f_equal. f_equal. transitivity (run_chain (c1 ++ c2) z).
     + unfold run_chain. rewrite fold_left_app. reflexivity.
